@@ -847,6 +847,8 @@ func (e *Exec) builtin(name string, args []Value, cc *ssa.CallCommon) Value {
 			if src.Len < n {
 				n = src.Len
 			}
+			e.raceElems(src, 0, n, false)
+			e.raceElems(dst, 0, n, true)
 			tmp := make([]Value, n)
 			for i := 0; i < n; i++ {
 				tmp[i] = copyVal(src.Arr.Val.(*ArrayV).E[src.Off+i])
@@ -904,6 +906,17 @@ func (e *Exec) builtin(name string, args []Value, cc *ssa.CallCommon) Value {
 	return nil
 }
 
+// raceElems records reads or writes of n elements of a slice's backing array (the copies done by the
+// append and copy builtins touch memory like any load or store).
+func (e *Exec) raceElems(s *SliceV, from, n int, write bool) {
+	if e.par == nil || e.rd == nil || s == nil || s.Arr == nil {
+		return
+	}
+	for i := 0; i < n; i++ {
+		e.raceAccess(&Pointer{Obj: s.Arr, Path: []int{s.Off + from + i}}, write)
+	}
+}
+
 func (e *Exec) appendOp(a, b Value, cc *ssa.CallCommon) Value {
 	// append([]byte, string...) and opaque bytes are not needed by the code in scope
 	dst, ok := a.(*SliceV)
@@ -927,6 +940,7 @@ func (e *Exec) appendOp(a, b Value, cc *ssa.CallCommon) Value {
 	}
 	et := cc.Args[0].Type().Underlying().(*types.Slice).Elem()
 	n := dst.Len + src.Len
+	e.raceElems(src, 0, src.Len, false)
 	// snapshot source elements first (aliasing)
 	tmp := make([]Value, src.Len)
 	for i := 0; i < src.Len; i++ {
@@ -934,6 +948,7 @@ func (e *Exec) appendOp(a, b Value, cc *ssa.CallCommon) Value {
 	}
 	if dst.Arr != nil && n <= dst.Cap {
 		arr := dst.Arr.Val.(*ArrayV)
+		e.raceElems(dst, dst.Len, src.Len, true)
 		for i := 0; i < src.Len; i++ {
 			arr.E[dst.Off+dst.Len+i] = tmp[i]
 		}
@@ -945,6 +960,7 @@ func (e *Exec) appendOp(a, b Value, cc *ssa.CallCommon) Value {
 		ncap = n
 	}
 	arr := &ArrayV{E: make([]Value, ncap)}
+	e.raceElems(dst, 0, dst.Len, false)
 	for i := 0; i < dst.Len; i++ {
 		arr.E[i] = copyVal(dst.Arr.Val.(*ArrayV).E[dst.Off+i])
 	}
